@@ -588,10 +588,9 @@ def parseRespHeader (h : Bytes) (now : Int) (reqSalt : Bytes) : Except Err Nat :
     let n := unbe16 (h.drop (9 + reqSalt.length))
     if n = 0 then .error .zeroRespLen else .ok n
 
-/-- `initRead` followed by `readFirstPayloadChunk`: the first payload and the reader state.
-On failure the state is the one the code leaves behind (`readCipher` is set before the header is
-opened). -/
-def initRead (C : Crypto) (c : CReader) (now : Int) : Except Err Bytes × CReader :=
+/-- `initRead`: the length of the first payload chunk and the reader state. On failure the state is
+the one the code leaves behind (`readCipher` is set before the header is opened). -/
+def initRead (C : Crypto) (c : CReader) (now : Int) : Except Err Nat × CReader :=
   let saltLen := c.psk.length
   let urspLen := c.respPrefix.length
   let n := urspLen + saltLen + TCPRequestFixedLengthHeaderLength + saltLen + tagSize
@@ -606,13 +605,19 @@ def initRead (C : Crypto) (c : CReader) (now : Int) : Except Err Bytes × CReade
     | some h =>
       match parseRespHeader h now c.reqSalt with
       | .error e => (.error e, { c with segs := [], r := some ⟨k, 1, [], rest⟩ })
-      | .ok len =>
-        match readFull (len + tagSize) rest with
-        | .error e => (.error e, { c with segs := [], r := some ⟨k, 1, [], []⟩ })
-        | .ok (c2, rest2) =>
-          match C.dec k 1 c2 with
-          | none => (.error .auth, { c with segs := [], r := some ⟨k, 1, [], rest2⟩ })
-          | some p => (.ok p, { c with segs := [], r := some ⟨k, 2, [], rest2⟩ })
+      | .ok len => (.ok len, { c with segs := [], r := some ⟨k, 1, [], rest⟩ })
+
+/-- `readFirstPayloadChunk` on the state left by a successful `initRead` -/
+def firstPayload (C : Crypto) (c : CReader) (len : Nat) : Except Err Bytes × CReader :=
+  match c.r with
+  | none => (.error .fuel, c)
+  | some r =>
+    match readFull (len + tagSize) r.wire with
+    | .error e => (.error e, { c with r := some { r with wire := [] } })
+    | .ok (c2, rest2) =>
+      match C.dec r.key r.nonce c2 with
+      | none => (.error .auth, { c with r := some { r with wire := rest2 } })
+      | some p => (.ok p, { c with r := some { r with nonce := r.nonce + 1, wire := rest2 } })
 
 /-- `ShadowStreamClientConn.Read(b)` -/
 def CReader.read (C : Crypto) (c : CReader) (now : Int) (bufLen : Nat) : ROut × CReader :=
@@ -621,27 +626,38 @@ def CReader.read (C : Crypto) (c : CReader) (now : Int) (bufLen : Nat) : ROut ×
   | none =>
     match initRead C c now with
     | (.error e, c') => (.fail e, c')
-    | (.ok p, c') =>
-      if p.length + tagSize ≤ bufLen then (.data p, c')
-      else (.data (p.take bufLen), { c' with r := c'.r.map (fun r => { r with left := p.drop bufLen }) })
+    | (.ok len, c') =>
+      match firstPayload C c' len with
+      | (.error e, c'') => (.fail e, c'')
+      | (.ok p, c'') =>
+        if len + tagSize ≤ bufLen then (.data p, c'')
+        else (.data (p.take bufLen), { c'' with r := c''.r.map (fun r => { r with left := p.drop bufLen }) })
 
 /-- prepend the first payload to the outcome of the copy loop that follows it -/
 def ROut.prepend (p : Bytes) : ROut → ROut
   | .copied ps e => .copied (p :: ps) e
   | o => o
 
+/-- the first-read part shared by `writeToGeneric` and `writeToServerConn`: end of stream before
+any response byte is a clean end (`return 0, nil`); every other failure, including end of stream
+right after the response header, is returned. `k` continues with the copy loop. -/
+def CReader.firstCopy (C : Crypto) (c : CReader) (now : Int) (k : Reader → ROut × Reader) : ROut × CReader :=
+  match initRead C c now with
+  | (.error .eof, c') => (.copied [] none, c')
+  | (.error e, c') => (.copied [] (some e), c')
+  | (.ok len, c') =>
+    match firstPayload C c' len with
+    | (.error e, c'') => (.copied [] (some e), c'')
+    | (.ok p, c'') =>
+      match c''.r with
+      | none => (.copied [p] (some .fuel), c'')
+      | some r => let (o, r') := k r; (o.prepend p, { c'' with r := some r' })
+
 /-- `ShadowStreamClientConn.writeToGeneric(w)` -/
 def CReader.writeTo (C : Crypto) (c : CReader) (now : Int) : ROut × CReader :=
   match c.r with
   | some r => let (o, r') := r.writeTo C; (o, { c with r := some r' })
-  | none =>
-    match initRead C c now with
-    | (.error .eof, c') => (.copied [] none, c')
-    | (.error e, c') => (.copied [] (some e), c')
-    | (.ok p, c') =>
-      match c'.r with
-      | none => (.copied [p] (some .fuel), c')
-      | some r => let (o, r') := r.writeTo C; (o.prepend p, { c' with r := some r' })
+  | none => c.firstCopy C now (fun r => r.writeTo C)
 
 /-- `ShadowStreamClientConn.writeToServerConn(w)`; `started`: `w.writeCipher != nil`. The pieces go
 through `w.Write` (first piece of an unstarted `w`, or every piece on the guarded generic path) or
@@ -652,13 +668,6 @@ def CReader.tunnel (C : Crypto) (c : CReader) (now : Int) (started : Bool) : ROu
     if started then let (o, r') := r.tunnel C; (o, { c with r := some r' })
     else if tunnelGuardsUnstartedServer then let (o, r') := r.writeTo C; (o, { c with r := some r' })
     else (.copied [] (some .nilDeref), c)
-  | none =>
-    match initRead C c now with
-    | (.error .eof, c') => (.copied [] none, c')
-    | (.error e, c') => (.copied [] (some e), c')
-    | (.ok p, c') =>
-      match c'.r with
-      | none => (.copied [p] (some .fuel), c')
-      | some r => let (o, r') := r.tunnel C; (o.prepend p, { c' with r := some r' })
+  | none => c.firstCopy C now (fun r => r.tunnel C)
 
 end SSV.Stream
